@@ -188,7 +188,7 @@ def from_ctc_to_geff(
             # forward in time (parent -> child)
             edges.append((_node_ids[i], _node_ids[i + 1]))
 
-    tracks_table = np.loadtxt(tracks_file_path, dtype=int)
+    tracks_table = np.loadtxt(tracks_file_path, dtype=int, ndmin=2)
 
     # removing orphan tracklets
     tracks_table = tracks_table[tracks_table[:, -1] > 0]
